@@ -625,18 +625,22 @@ class _Tmpl:
 
     def __init__(self, rng, mode):
         self.rng = rng
-        self.mode = mode            # 'vec': section / whole-array assignments and loops; 'elem': loops over elements only
+        self.mode = mode            # 'vec': section / whole-array assignments and loops; 'elem': loops over elements only;
+        #                             'zero': like 'vec', biased to the literal 0 as section bound / subscript / loop bound on
+        #                             arrays whose declared lower bound is <= 0 (stride 1, explicit bounds only)
+        self.zero = mode == 'zero'
+        self.vec = mode in ('vec', 'zero')
         self.sym = rng.random() < 0.6
         self.arrays = []
         for k in range(rng.randint(2, 4)):
             rank = rng.choice((1, 1, 1, 2, 2, 3))
             dims = []
             for j in range(rank):
-                lb = rng.choice((1, 1, 1, 0, -2, 2))
-                if self.sym and j < 2 and rng.random() < 0.5:
+                lb = rng.choice((-2, -1, 0, -3, -2, 0)) if self.zero else rng.choice((1, 1, 1, 0, -2, 2))
+                if self.sym and j < 2 and rng.random() < (0.3 if self.zero else 0.5):
                     ext = 'n'
                 else:
-                    ext = rng.randint(2, 5 if rank < 3 else 3)
+                    ext = rng.randint(3 if self.zero else 2, 5 if rank < 3 else (4 if self.zero else 3))
                 dims.append((lb, ext))
             self.arrays.append((f'a{k + 1}', dims))
         self.loopvars = ['i', 'j', 'l']
@@ -653,6 +657,8 @@ class _Tmpl:
     def fixed_index(self, lb, ext):
         if ext == 'n':
             return fir.ilit(lb)
+        if self.zero and lb <= 0 <= lb + ext - 1 and self.rng.random() < 0.6:
+            return fir.ilit(0)
         return fir.ilit(lb + self.rng.randrange(ext))
 
     # ---- sections
@@ -664,6 +670,11 @@ class _Tmpl:
             if kind != 'n':
                 return None
             hi = self.hi_of(lb, ext)
+            if self.zero:
+                if stride not in (None, 1):
+                    return None
+                if off == 0:
+                    return fir.RNG(fir.ilit(lb), hi, None), 1
             if off == 0:
                 r = rng.random()
                 if stride == -1 or (stride is None and r < 0.08):
@@ -683,6 +694,13 @@ class _Tmpl:
         kind, c = count
         if kind != 'lit' or c > ext:
             return None
+        if self.zero:
+            if stride not in (None, 1):
+                return None
+            starts = list(range(lb, lb + ext - c + 1))
+            zs = [x for x in starts if x == 0 or x + c - 1 == 0]
+            start = rng.choice(zs) if zs and rng.random() < 0.8 else rng.choice(starts)
+            return fir.RNG(fir.ilit(start), fir.ilit(start + c - 1), None), 1
         cands = [t for t in ((stride,) if stride is not None else (1, 1, 1, 1, 2, -1, -2)) if (c - 1) * abs(t) <= ext - 1]
         if not cands:
             return None
@@ -814,7 +832,7 @@ class _Tmpl:
             env[v] = (lb, ext)
             subs.append(fir.V(v))
         body = [[A('assign'), fir.IDX(name, *subs), self.elem_expr(env, 2)]]
-        if self.mode == 'vec' and rng.random() < 0.35:
+        if self.vec and rng.random() < 0.35:
             body.insert(rng.randrange(2), self.stmt_section(list(env)))
         for (lb, ext), v in zip(dims, self.loopvars):      # first dimension innermost
             body = [[A('do'), A(v), fir.ilit(lb), self.hi_of(lb, ext), NONE, body]]
@@ -825,7 +843,7 @@ class _Tmpl:
         body = []
         for _ in range(rng.randint(2, 6)):
             r = rng.random()
-            if self.mode == 'vec' and r < 0.62:
+            if self.vec and r < 0.62:
                 body.append(self.stmt_section([]))
             elif r < 0.9:
                 body.append(self.stmt_nest())
@@ -887,6 +905,182 @@ def gen_fir(rng, kind):
     return p, fir.gen_inputs(rng, p, 3, max_extent=5)
 
 
+# ====================================================================== reductions on the right-hand side (text level)
+
+def gen_tables():
+    """names whose presence on the right-hand side stops resolution: `forbidden_ops` (read from the source with ast) and
+    fparser's array reduction names, folded to lower case"""
+    import ast
+    import inspect
+    from fparser.two import Fortran2003
+    from loki.transformations.array_indexing import vector_notation
+    names = []
+    tree = ast.parse(inspect.getsource(vector_notation))
+    for node in ast.walk(tree):
+        if isinstance(node, ast.Assign) and any(isinstance(t, ast.Name) and t.id == 'forbidden_ops' for t in node.targets):
+            names += [str(ast.literal_eval(e)).lower() for e in node.value.elts]
+    names += [str(n).lower() for n in Fortran2003.Intrinsic_Name.array_reduction_names]
+    names = sorted(set(names))
+    items = ', '.join('"%s"' % n for n in names)
+    return ('/-! generated by harness/props/c30.py from loki/transformations/array_indexing/vector_notation.py and fparser -/\n'
+            'namespace LokiModel.Generated.C30\n\n'
+            f'def reductionNames : List String := [{items}]\n\n'
+            'end LokiModel.Generated.C30\n')
+
+
+def _recase(rng, word):
+    r = rng.random()
+    if r < 0.3:
+        return word.lower()
+    if r < 0.55:
+        return word.upper()
+    if r < 0.75:
+        return word.capitalize()
+    return ''.join(c.upper() if rng.random() < 0.5 else c.lower() for c in word)
+
+
+_RTEXT_HEAD = """subroutine k(n, m, a, b, c, d)
+  implicit none
+  integer, intent(in) :: n, m
+  real, intent(inout) :: a(n), c(n, m)
+  real, intent(in) :: b(n), d(n, m)
+"""
+
+
+def gen_rtext(rng):
+    """(routine source, driver source with the placeholder routine names k_orig / k_tr, call names of the statement)"""
+    rc = lambda w: _recase(rng, w)
+    red = rng.choice(('maxval', 'minval', 'product', 'sum', 'maxval', 'minval'))
+    R = rc(red)
+    v = {x: (lambda x=x: rc(x)) for x in 'abcdnm'}
+    a, b, c, d, n, m = (v[x] for x in 'abcdnm')
+    kind = rng.randrange(9)
+    if kind == 0:
+        stmt, names = f'{a()}(1:{n()}) = {b()}(1:{n()}) / {R}({d()}(1:{n()}, 1:{m()}))', [R]
+    elif kind == 1:
+        cnt, re = rc('count'), rc('real')
+        stmt, names = f'{a()}(1:{n()}) = {b()}(1:{n()}) + {re}({cnt}({d()}(1:{n()}, 1:{m()}) > 1.0))', [re, cnt]
+    elif kind == 2:
+        q, mg = rc(rng.choice(('any', 'all'))), rc('merge')
+        stmt, names = f'{a()}(1:{n()}) = {mg}({b()}(1:{n()}), 0.25, {q}({d()}(1:{n()}, 1:{m()}) > 1.25))', [mg, q]
+    elif kind == 3:
+        stmt, names = f'{a()}(1:{n()}) = {b()}(1:{n()}) - {R}({b()}(1:{n()}))', [R]
+    elif kind == 4:
+        stmt, names = f'{a()}(:) = {b()}(:) * {R}({d()})', [R]
+    elif kind == 5:
+        stmt, names = f'{a()} = {b()} / {R}({d()}(:, 2))', [R]
+    elif kind == 6:
+        stmt, names = f'{c()}(1:{n()}, 1:{m()}) = {d()}(1:{n()}, 1:{m()}) / {R}({d()}(1:{n()}, 1:{m()}))', [R]
+    elif kind == 7:
+        stmt, names = f'{c()}(:, 1) = {d()}(:, 2) + {R}({d()}(:, :)) * {b()}(:)', [R]
+    else:   # control: no reduction, the statement IS resolved
+        mx = rc('max')
+        stmt, names = f'{a()}(1:{n()}) = {mx}({b()}(1:{n()}), 1.0) + {d()}(1:{n()}, 2)', [mx]
+    src = _RTEXT_HEAD + f'  {stmt}\nend subroutine k\n'
+    nn, mm = rng.randint(2, 4), rng.randint(2, 3)
+    q8 = lambda: '%s' % (rng.randint(4, 16) / 8.0)
+    bl = ', '.join(q8() for _ in range(nn))
+    dl = ', '.join(q8() for _ in range(nn * mm))
+    drv = f"""program main
+  implicit none
+  integer, parameter :: n = {nn}, m = {mm}
+  real :: a1(n), a2(n), c1(n, m), c2(n, m), b(n), d(n, m)
+  b = (/ {bl} /)
+  d = reshape((/ {dl} /), (/ n, m /))
+  a1 = 0.5
+  a2 = 0.5
+  c1 = 0.75
+  c2 = 0.75
+  call k_orig(n, m, a1, b, c1, d)
+  call k_tr(n, m, a2, b, c2, d)
+  if (all(a1 == a2) .and. all(c1 == c2)) then
+    write(*, '(A)') 'SAME'
+  else
+    write(*, '(A)') 'DIFF'
+    write(*, *) a1
+    write(*, *) a2
+    write(*, *) c1
+    write(*, *) c2
+  end if
+end program main
+"""
+    return src, drv, names
+
+
+def _dec_rtext(req):
+    if not (isinstance(req[3], str) and isinstance(req[4], str) and isinstance(req[5], list)):
+        raise ValueError('malformed rtext request')
+    src, drv = req[3], req[4]
+    if 'end subroutine k' not in src or 'call k_tr' not in drv or 'end program main' not in drv or not src.startswith('subroutine k('):
+        raise ValueError('malformed rtext request')
+    return src, drv, [str(x) for x in req[5]]
+
+
+_rtext_cache = {}
+
+
+def rtext_transform(src):
+    """(statement left unchanged?, fgen text of the transformed routine)"""
+    if src in _rtext_cache:
+        return _rtext_cache[src]
+    from loki import Subroutine, fgen
+    from loki.frontend import FP
+    from loki.transformations.array_indexing import resolve_vector_notation
+    r = Subroutine.from_source(src, frontend=FP)
+    before = fgen(r.body)
+    resolve_vector_notation(r)
+    res = (fgen(r.body) == before, fgen(r))
+    _rtext_cache[src] = res
+    return res
+
+
+def _rename_routine(text, new):
+    import re
+    return re.sub(r'(?i)\b(subroutine\s+)k\b', r'\g<1>' + new, text)
+
+
+def _gf_build_run(text, workdir=None):
+    import shutil
+    import subprocess
+    import tempfile
+    d = tempfile.mkdtemp(prefix='c30_rt_', dir=workdir)
+    try:
+        with open(os.path.join(d, 'p.f90'), 'w') as fh:
+            fh.write(text)
+        p = subprocess.run([fir.GFORTRAN, '-O0', '-fcheck=bounds', '-ffree-line-length-none', '-w', '-o', 'p.x', 'p.f90'], cwd=d,
+                           stdout=subprocess.PIPE, stderr=subprocess.STDOUT, text=True, timeout=300)
+        if p.returncode != 0:
+            msg = [l for l in p.stdout.splitlines() if 'Error' in l]
+            return 'compile-error', (msg[0] if msg else p.stdout[-200:]).strip()
+        q = subprocess.run([os.path.join(d, 'p.x')], cwd=d, stdout=subprocess.PIPE, stderr=subprocess.STDOUT, text=True, timeout=60)
+        if q.returncode != 0:
+            return 'run-error', q.stdout.strip().splitlines()[-1][:200] if q.stdout.strip() else 'rc=%d' % q.returncode
+        return 'ok', q.stdout
+    finally:
+        shutil.rmtree(d, ignore_errors=True)
+
+
+def oracle_rtext(src, drv, names):
+    """original text vs Loki's fgen text of the resolved routine, both compiled by gfortran and run on the same data"""
+    try:
+        unchanged, ttext = rtext_transform(src)
+    except Exception as e:
+        return [Failure(f'rtext: resolve_vector_notation raised {type(e).__name__}: {str(e)[:120]}', None)]
+    orig = _rename_routine(src, 'k_orig')
+    kind, out = _gf_build_run(orig + '\n' + _rename_routine(ttext, 'k_tr') + '\n' + drv, os.environ.get('VERIF_TMP'))
+    if kind == 'ok':
+        if out.strip().splitlines()[:1] == ['SAME']:
+            return []
+        return [Failure('rtext: original and resolved routine compute different arrays: ' + ' | '.join(out.split('\n')[1:5])[:300]
+                        + ' ; resolved text: ' + ' / '.join(l.strip() for l in ttext.splitlines()[6:-1])[:200], None)]
+    # is the harness's own text at fault?
+    kind0, out0 = _gf_build_run(orig + '\n' + _rename_routine(src, 'k_tr') + '\n' + drv, os.environ.get('VERIF_TMP'))
+    if kind0 != 'ok':
+        return [Failure(f'harness: the ORIGINAL text does not build/run ({kind0}: {out0})', None, error=True)]
+    return [Failure(f'rtext: resolved routine rejected by gfortran / fails at run time ({kind}: {out}); resolved text: '
+                    + ' / '.join(l.strip() for l in ttext.splitlines()[6:-1])[:200], None)]
+
+
 # ====================================================================== the property
 
 def _run_pair(op, prog, tprog, inputs):
@@ -916,7 +1110,7 @@ def _gf_items(op, prog, tprog, inputs):
 class C30(Prop):
     id = 'C30'
     title = 'Array-notation resolution and index normalisation preserve behaviour'
-    model_modules = ['LokiModel.C30.Model', 'LokiModel.C30.Codec']
+    model_modules = ['LokiModel.C30.Model', 'LokiModel.C30.Codec', 'LokiModel.C30.Reduce']
     props_module = 'LokiModel.Props.C30'
     findings_module = 'LokiModel.Findings.C30'
     driver = 'Drivers/C30.lean'
@@ -968,6 +1162,8 @@ class C30(Prop):
             ('addexp', 'tmpl-vec', 4), ('remexp', 'tmpl-vec', 4),
             ('invert', 'tmpl-vec', 5), ('invert', 'fir-index', 3),
             ('shift0', 'tmpl-elem', 5), ('shift0', 'fir-elem', 3),
+            # literal 0 as section bound / subscript on arrays with declared lower bound <= 0 (truthiness family)
+            ('normshape', 'tmpl-zero', 5), ('resolve', 'tmpl-zero', 3), ('pipef', 'tmpl-zero', 2), ('pipec', 'tmpl-zero', 2),
         ]
         cases = []
         for op, source, cnt in plan:
@@ -981,6 +1177,10 @@ class C30(Prop):
                 kinds = fir.stmt_kinds(p)
                 nontrivial = (kinds['assign_section'] + kinds['assign_var'] > 0) if op in RESOLVING + ('addexp', 'remexp') else True
                 cases.append(Case(req, stream=f'{op}/{source}', nontrivial=nontrivial, key=dumps(p) + op))
+        # array reductions (assorted letter case) on the right-hand side of section assignments: text level, gfortran
+        for k in range({'quick': 4, 'thorough': 24, 'search': 12}.get(tier, 4)):
+            src, drv, names = gen_rtext(rng)
+            cases.append(Case([A('c30'), A('rtext'), A('gf'), src, drv, list(names)], stream='rtext', key=src))
         if tier == 'thorough':
             self.prefetch_gfortran(cases)
         return cases
@@ -988,6 +1188,8 @@ class C30(Prop):
     def prefetch_gfortran(self, cases):
         items, index = [], []
         for c in cases:
+            if str(c.req[1]) == 'rtext':
+                continue
             op, gf, prog, inputs = _dec(c.req)
             if not gf:
                 continue
@@ -1007,7 +1209,13 @@ class C30(Prop):
             _gf_cache[line] = res[start:start + k]
 
     # ---------------------------------------------------------------- real code (correspondence side)
+    def tables(self):
+        return {'LokiModel/Generated/C30Tables.lean': gen_tables()}
+
     def impl(self, req):
+        if _h(req) == 'c30' and len(req) == 6 and str(req[1]) == 'rtext':
+            src, drv, names = _dec_rtext(req)
+            return [A('ok'), A('unchanged' if rtext_transform(src)[0] else 'resolved')]
         op, gf, prog, inputs = _dec(req)
         t = transformed(op, prog)
         if t[0] != 'ok':
@@ -1021,6 +1229,8 @@ class C30(Prop):
 
     # ---------------------------------------------------------------- direct oracle
     def oracle(self, req):
+        if _h(req) == 'c30' and len(req) == 6 and str(req[1]) == 'rtext':
+            return oracle_rtext(*_dec_rtext(req))
         op, gf, prog, inputs = _dec(req)
         if op == 'shift0' and has_bounded_section(prog):
             return []       # out of scope: start-1:stop is the Python range convention, not Fortran
